@@ -10,7 +10,7 @@ import (
 
 func init() {
 	register(&propDef{
-		ID: "C12", Level: "other", Run: withShared(runC12, share{"C13", runC13, ruleIs("min-raise-init")}, share{"C11", runC11, ruleIs("offer-table")}),
+		ID: "C12", Level: "other", Run: withShared(runC12, share{"C13", runC13, ruleIs("min-raise-init")}, share{"C11", runC11, ruleIs("offer-table")}, share{"C07", runC07, minRaiseSurvivesReload}),
 		Explanation: "Raise(x) is extracted as a decision table (refused / delegated to Call / delegated to Allin / carried out) and compared with the minimum-raise rule on a bounded grid including negative and zero amounts; on the carried-out rows PreviousRaiseSize' = x - CurrentWager and the chip mover is paid x - Wager as a wager. For every offered action, the amount handed to the chip mover is non-negative for every caller-supplied argument (grid with negative parameters, state constraints only on state). Every in-round store to Status.CurrentWager is dominated by old < new, and raising the wager to match makes the payer the current raiser. Pot-limit rows are only checked for amount sign.",
 		Trusted:     commonTrusted,
 		Assumptions: []string{"state constraints on the grid: chip quantities >= 0, StackSize = InitialStackSize - Wager, Wager <= CurrentWager", "grid -3..6 for parameters, 0..6 for state (0..9 thorough)"},
@@ -92,9 +92,79 @@ func runC12(c *Ctx) {
 					ints = append(ints, tPRS)
 				}
 				tStack, tInit, tWager := findTerm(ints, ".StackSize"), findTerm(ints, ".InitialStackSize"), findTerm(ints, ").Wager")
+				// terms read after the chip mover ran (an epoch suffix @hN) are not free: the mover's
+				// summary gives them from the state before and the amount it was handed
+				var moverArg *Aff
+				for _, e := range ps.Events {
+					if e.Kind == "call" && e.Fn == mover && len(e.Args) >= 2 {
+						moverArg = e.Args[1].asAff()
+					}
+				}
+				if moverArg != nil {
+					for t := range moverArg.T {
+						if !im[t] {
+							ints = append(ints, t)
+							im[t] = true
+						}
+					}
+				}
+				post := map[string]string{} // term@h -> kind
+				for _, t := range ints {
+					if i := strings.LastIndex(t, "@h"); i > 0 {
+						base := t[:i]
+						switch {
+						case strings.HasSuffix(base, ".StackSize"):
+							post[t] = "stack"
+						case strings.HasSuffix(base, ").Wager"):
+							post[t] = "wager"
+						case strings.HasSuffix(base, ".InitialStackSize"):
+							post[t] = "init"
+						case strings.HasSuffix(base, "Status.CurrentWager"):
+							post[t] = "cw"
+						case strings.HasSuffix(base, "Status.PreviousRaiseSize"):
+							post[t] = "prs"
+						}
+					}
+				}
+				if tStack != "" && strings.Contains(tStack, "@h") {
+					tStack = ""
+					for _, t := range ints {
+						if strings.HasSuffix(t, ".StackSize") {
+							tStack = t
+						}
+					}
+				}
+				if tWager != "" && strings.Contains(tWager, "@h") {
+					tWager = ""
+					for _, t := range ints {
+						if strings.HasSuffix(t, ").Wager") {
+							tWager = t
+						}
+					}
+				}
+				if len(post) > 0 {
+					// the pre-state terms the post-state ones are computed from must be on the grid
+					for _, need := range []struct {
+						t    *string
+						name string
+					}{{&tStack, "PS(recv).StackSize"}, {&tWager, "PS(recv).Wager"}} {
+						if *need.t == "" {
+							*need.t = need.name
+							ints = append(ints, need.name)
+							im[need.name] = true
+						}
+					}
+					if !im[tCW] {
+						ints = append(ints, tCW)
+						im[tCW] = true
+					}
+				}
 				var en []string
 				for _, t := range ints {
 					if t == tStack && tInit != "" {
+						continue
+					}
+					if _, isPost := post[t]; isPost {
 						continue
 					}
 					en = append(en, t)
@@ -122,6 +192,40 @@ func runC12(c *Ctx) {
 						if a.I[tCW] != 0 || a.I[tPRS] != 0 {
 							return false
 						}
+						if tWager != "" && a.I[tWager] != 0 {
+							return false
+						}
+					}
+					if len(post) > 0 && moverArg != nil {
+						arg, ok := evalAff(moverArg, a)
+						if !ok {
+							return false
+						}
+						paid := arg
+						if tStack != "" && paid > a.I[tStack] {
+							paid = a.I[tStack]
+						}
+						w := int64(0)
+						if tWager != "" {
+							w = a.I[tWager]
+						}
+						for t, kind := range post {
+							switch kind {
+							case "stack":
+								a.I[t] = a.I[tStack] - paid
+							case "wager":
+								a.I[t] = w + paid
+							case "init":
+								a.I[t] = a.I[tInit]
+							case "cw":
+								a.I[t] = a.I[tCW]
+								if w+paid > a.I[t] {
+									a.I[t] = w + paid
+								}
+							case "prs":
+								a.I[t] = a.I[tPRS]
+							}
+						}
 					}
 					return true
 				}, func(a Asg) bool {
@@ -133,11 +237,24 @@ func runC12(c *Ctx) {
 					if ok && v < a.I[tPRS] && len(viol) < 3 {
 						viol = append(viol, fmt.Sprintf("the minimum raise drops from %d to %d (%s) for {%s}", a.I[tPRS], v, st.Val, a.String()))
 					}
+					// what is recorded is the lift of the wager to match: for an amount the player
+					// holds, the mover puts it in full, so the level reached is Wager + amount
+					if ok && moverArg != nil && tStack != "" && im[tCW] {
+						if arg, okA := evalAff(moverArg, a); okA && arg > 0 && arg <= a.I[tStack] {
+							w := int64(0)
+							if tWager != "" {
+								w = a.I[tWager]
+							}
+							if lift := w + arg - a.I[tCW]; lift > 0 && v != lift && len(viol) < 3 {
+								viol = append(viol, fmt.Sprintf("the minimum recorded is %d (%s) but the wager to match is lifted by %d for {%s}", v, st.Val, lift, a.String()))
+							}
+						}
+					}
 					return len(viol) < 3
 				})
 			}
 			if nHere > 0 {
-				c.check(len(viol) == 0, "min-raise-monotone", fnKey(fn), p.FnPos(fn), "a new minimum raise is recorded only when the increment is at least the old minimum", "an action can shrink the minimum raise: the next undersized raise would be carried out", viol...)
+				c.check(len(viol) == 0, "min-raise-monotone", fnKey(fn), p.FnPos(fn), "a new minimum raise is recorded only when the increment is at least the old minimum, and it is the lift of the wager to match", "an action records a wrong minimum raise: the next undersized raise would be carried out", viol...)
 			}
 		}
 		c.floor("min-raise-monotone", "paths recording a minimum raise", nPRS, 3)
